@@ -284,6 +284,10 @@ def end_to_end(ctx):
             if fn is None or phi is None:
                 col.violation(f"{tag}/e2e/no_result", f"{tag}: no first-stage result ({spy.get('err')})", rep)
                 continue
+            if np.size(fn) != 1 or np.ndim(phi) != 2 or np.shape(phi) != (3, 1):
+                col.violation(f"{tag}/e2e/result_shape", f"{tag}: one frequency selected on three channels, Fn has shape {np.shape(fn)}, "
+                              f"Phi {np.shape(phi)}", rep)
+                continue
             ph = np.asarray(phi)[:, 0]
             k = int(round(float(np.atleast_1d(fn)[0]) / df))
             if k != line:
